@@ -504,6 +504,10 @@ class Interp:
         if r2 is None:
             return r1
         out = State(pc=r1.pc[:base_len])
+        ex1, ex2 = r1.pc[base_len:], r2.pc[base_len:]
+        if (len(ex1) > 1 or len(ex2) > 1) and ex1 and ex2:
+            # keep what is known about the merged paths as a disjunction (sub-branches that ended in raise/return)
+            out.pc.append((('bool', 'or', (pc_term(ex1), pc_term(ex2))), True))
         for k in list(r1.env.keys()) + [k for k in r2.env.keys() if k not in r1.env]:
             if k in r1.env and k in r2.env:
                 out.env[k] = merge_values(test, r1.env[k], r2.env[k])
@@ -963,7 +967,7 @@ class Interp:
         if name in ('in', 'not in') and isinstance(b, (list, tuple)) and not is_conc(b):
             pass
         if name in ('in', 'not in') and isinstance(b, (list, tuple, dict, frozenset, range)) and is_conc(b) and isinstance(a, S):
-            return ('cmp', name, a.t, tuple(b) if not isinstance(b, dict) else tuple(b.keys()))
+            return ('cmp', name, a.t, ('tuple',) + (tuple(b) if not isinstance(b, dict) else tuple(b.keys())))
         return ('cmp', name, term(a), term(b))
 
     def e_IfExp(self, node, st):
@@ -1347,8 +1351,10 @@ class Interp:
             if isinstance(a, dict):
                 return list(a.keys())
             return S(term(a), 'list') if isinstance(a, S) else NotImplemented
-        if name in ('list', 'dict') and not args:
-            return [] if name == 'list' else {}
+        if name == 'dict' and not args:
+            return dict(kwargs)
+        if name == 'list' and not args:
+            return []
         if name == 'range' and all(is_conc(a) for a in args) and args:
             r = range(*args)
             if len(r) > 100000:
@@ -1440,8 +1446,12 @@ def rewrite(t, fn):
     """bottom-up rewrite of a term"""
     if isinstance(t, tuple):
         t = tuple(rewrite(x, fn) for x in t)
-    r = fn(t)
-    return t if r is None else r
+    for _ in range(8):
+        r = fn(t)
+        if r is None or r == t:
+            break
+        t = r
+    return t
 
 
 def flatten_cat(t):
